@@ -13,7 +13,8 @@
    ndarrays or scalars in any order, and [rins] are their underlying
    buffers/scalars in the same order. *)
 From Coq Require Import ZArith QArith List Bool Arith.
-From Verif Require Import Base.Num Lib.Axis C17.Arr C17.Model C17.Proofs C17.ProofsDisc C17.Corr C17.Refuted.
+From Coq Require Import Reals.
+From Verif Require Import Base.Num Base.Vec Lib.Axis C17.Arr C17.Model C17.Proofs C17.ProofsDisc C17.Corr C17.Refuted C17.ArrProofs.
 Import ListNotations.
 
 (* Wrapping an array of matching dtype and shape shares memory with it and
@@ -245,3 +246,95 @@ Theorem discr_reduce_negative_axis_refuted :
                  /\ a_shape (rd st' 1) = [2%nat] /\ a_data (rd st' 1) = [3; 12]%Q)
   /\ disc_ufunc castQ NPadd st_d d23 1 MReduce [OpDisc d23 0] kwm1 [] = Err EValue.
 Proof. exact C17.Refuted.discr_reduce_negative_axis_refuted. Qed.
+
+(* ------------------------------------------------------------------------
+   Laws of the ufunc methods themselves (exact semantics C17/Arr.v, validated
+   against NumPy by the raw half of every correspondence case), for EVERY
+   shape outer x n x inner (i.e. every rank and every axis), every length. *)
+
+(* shape laws *)
+Theorem reduce_removes_axis :
+  forall (T : Type) (NT : Num T) (o : bop) (outer n inner : nat) (d r : list T),
+  length d = (outer * (n * inner))%nat ->
+  reduce_ax o outer n inner d = Some r -> length r = (outer * inner)%nat.
+Proof. exact @reduce_ax_length. Qed.
+Print Assumptions reduce_removes_axis.
+
+Theorem accumulate_keeps_shape :
+  forall (T : Type) (NT : Num T) (o : bop) (outer n inner : nat) (d : list T),
+  length d = (outer * (n * inner))%nat ->
+  length (accumulate_ax o outer n inner d) = (outer * (n * inner))%nat.
+Proof. exact @accumulate_ax_length. Qed.
+Print Assumptions accumulate_keeps_shape.
+
+Theorem outer_shape_and_entries :
+  forall (T : Type) (NT : Num T) (o : bop) (x y : list T),
+  length (outer o x y) = (length x * length y)%nat
+  /\ forall d i j, (i < length x)%nat -> (j < length y)%nat ->
+       nth (i * length y + j) (outer o x y) d = bop_ev o (nth i x d) (nth j y d).
+Proof. intros T NT o x y. split; [exact (outer_length o x y) | intros; apply outer_nth; assumption]. Qed.
+Print Assumptions outer_shape_and_entries.
+
+Theorem reduceat_one_row_per_index :
+  forall (T : Type) (NT : Num T) (o : bop) (rs : list (list T)) (idx : list nat),
+  length (reduceat_rows o rs idx) = length idx.
+Proof. exact @reduceat_rows_length. Qed.
+
+(* accumulate's entry j along the axis is reduce of entries 0..j; its LAST
+   entry is reduce of the whole axis (every n >= 1, any row length, any ufunc) *)
+Theorem accumulate_prefix_is_reduce :
+  forall (T : Type) (NT : Num T) (o : bop) (inner : nat) (rs : list (list T)) (j : nat),
+  (j < length rs)%nat ->
+  Some (nth j (acc_rows o rs) []) = red_rows o inner (firstn (S j) rs).
+Proof. exact @acc_rows_nth. Qed.
+Theorem accumulate_last_is_reduce :
+  forall (T : Type) (NT : Num T) (o : bop) (inner : nat) (rs : list (list T)),
+  rs <> [] -> Some (last (acc_rows o rs) []) = red_rows o inner rs.
+Proof. exact @acc_rows_last. Qed.
+Print Assumptions accumulate_last_is_reduce.
+
+(* reduceat with the single index 0 is reduce *)
+Theorem reduceat_zero_is_reduce :
+  forall (T : Type) (NT : Num T) (o : bop) (inner : nat) (rs : list (list T)),
+  rs <> [] -> Some (nth 0 (reduceat_rows o rs [0%nat]) []) = red_rows o inner rs.
+Proof. exact @reduceat_rows_zero. Qed.
+
+(* ufunc.at: length kept, untouched entries untouched, equal to the buffered
+   fancy-index assignment when the indices are distinct ... *)
+Theorem at_frame :
+  forall (T : Type) (NT : Num T) (o : bop) (a : list T) (ivs : list (nat * T)),
+  length (at2 o a ivs) = length a
+  /\ forall j d, ~ In j (map fst ivs) -> nth j (at2 o a ivs) d = nth j a d.
+Proof. intros T NT o a ivs. split; [exact (at2_length o a ivs) | intros; apply at2_frame; assumption]. Qed.
+Theorem at_equals_fancy_when_distinct :
+  forall (T : Type) (NT : Num T) (o : bop) (a : list T) (ivs : list (nat * T)),
+  NoDup (map fst ivs) -> Forall (fun iv => (fst iv < length a)%nat) ivs ->
+  forall j, nth j (at2 o a ivs) nzero = nth j (fancy2 o a ivs) nzero.
+Proof. exact @at2_fancy2_nodup. Qed.
+Print Assumptions at_equals_fancy_when_distinct.
+
+(* ... and np.add.at ACCUMULATES over repeated indices (any list, any
+   repetitions), which the buffered assignment does not *)
+Theorem add_at_accumulates_repeated :
+  forall (a : list R) (ivs : list (nat * R)) (j : nat),
+  (j < length a)%nat ->
+  nth j (at2 BAdd a ivs) 0%R = (nth j a 0 + sum_at j ivs)%R.
+Proof. exact at2_add_accumulates. Qed.
+Print Assumptions add_at_accumulates_repeated.
+Theorem at_differs_from_fancy_when_repeated :
+  nth 0 (at2 BAdd [0%R] [(0%nat, 1%R); (0%nat, 1%R)]) 0%R = 2%R /\
+  nth 0 (fancy2 BAdd [0%R] [(0%nat, 1%R); (0%nat, 1%R)]) 0%R = 1%R.
+Proof. exact at_vs_fancy_repeated. Qed.
+
+(* add.reduce along any axis of any array preserves the total; the sum of
+   multiply.outer is the product of the sums *)
+Theorem add_reduce_preserves_total :
+  forall (outer n inner : nat) (d r : list R),
+  length d = (outer * (n * inner))%nat ->
+  reduce_ax BAdd outer n inner d = Some r -> sumf r = sumf d.
+Proof. exact reduce_add_preserves_sum. Qed.
+Print Assumptions add_reduce_preserves_total.
+Theorem multiply_outer_total :
+  forall (x y : list R), sumf (outer BMul x y) = (sumf x * sumf y)%R.
+Proof. exact outer_mul_sum. Qed.
+Print Assumptions multiply_outer_total.
